@@ -1,6 +1,7 @@
 import TucanProofs.Lemmas.Hill
 import TucanProofs.Lemmas.NxEdges
 import TucanProofs.Lemmas.RoundTripPipeline
+import TucanProofs.Lemmas.FilesMol
 /-!
 # C05 — every emitted string obeys the published grammar and canonical layout
 
@@ -57,6 +58,17 @@ theorem C05_emitted_is_sentence (order : Graph → List Nat) (hperm : ∀ r : Gr
     cases hpt : parseTucan toks with
     | none => simp [hl, hpt, bind, Except.bind, pure, Except.pure] at hp
     | some ast => exact ⟨toks, ast, rfl, (parseTucan_iff toks ast).mp hpt⟩
+
+/-- **From a conformant molfile to a sentence.**  For the graph of every molecule a molfile can state within the
+CTfile specification (`Mol.Conformant`: element symbols of the table or D/T, masses and radicals not negative;
+the graph is what either reader returns for a file stating it — `C06_v3000_file_any_indices`,
+`C06_readsAs_graph_of`), the emitted string is a sentence of the grammar. -/
+theorem C05_molfile_string_is_sentence (order : Graph → List Nat) (hperm : ∀ r : Graph, r.WF → (order r).Perm r.labels)
+    (g : Graph) (m : Mol) (c : List (Str × Str × Str)) (hc : c.length = m.atoms.length)
+    (hm : m.Conformant) (hg : IsGraphOf g m c)
+    (hsize : (natRepr (m.atoms.length + 1)).length ≤ intMaxStrDigits)
+    (s : Str) (h : tucanOf order g = .ok s) : ∃ toks ast, lex s = some toks ∧ Sentence toks ast :=
+  (isGraphOf_string_is_sentence order hperm g m c hc hm hg hsize s h).1
 
 /-- **Atom indices run `1 … n` in blocks of increasing atomic number**: the molecule the string is written
 from (the result of `sort_molecule_by_attribute(·, ATOMIC_NUMBER)`) has the labels `0 … n-1`, and the
